@@ -22,7 +22,7 @@ NONTERMINALS = {
     "prepare_table_ref_fk_stmt": "<table_name>", "prepare_table_ref_iden": "<table_name>",
     "prepare_column_type": "<type>", "prepare_column_auto_increment": "<type>", "prepare_column_type_check_auto_increment": "<type>",
     "prepare_constant": "<value>", "prepare_function_name": "<function>", "prepare_function_arguments": "<arguments>",
-    "prepare_condition_where": "<expr>",
+    "prepare_condition_where": "<expr>", "prepare_type_ref": "<type_ref>",
     "prepare_with_query": "<query>", "prepare_insert_statement": "<query>", "prepare_update_statement": "<query>", "prepare_delete_statement": "<query>",
 }
 
@@ -116,6 +116,8 @@ class Builder:
         self.bind = {}           # &str parameters of the current activation bound to a string literal by the caller
         self.assigned = set()
         self.loop_ends = []
+        self.last_lit = None
+        self._ords = {}
         self.pending = {}        # closure span -> its write template (a closure defined here and handed to a callee)
         self.clos = {}           # parameter of the current activation -> (template, defining function) of the closure it was given
         self.cvar = {}           # local -> the unit enum variant (def path) it is known to hold (constant argument of the caller)
@@ -160,6 +162,28 @@ class Builder:
         if e["name"] in self.assigned:
             return None
         return g1["text"]
+
+    def ordinal(self, fname, callee, sp):
+        """1-based position of this call site among the calls to `callee` in `fname`, in source order (0 when it is the only one)"""
+        key = (fname, callee)
+        if key not in self._ords:
+            fn = self.f.fns.get(fname) or {}
+            sps = []
+            for c in H.calls(fn.get("hir") or {}):
+                if (c.get("callee") or "") == callee and c.get("sp"):
+                    sps.append(c["sp"])
+
+            def pos(x):
+                parts = x.rsplit(":", 2)
+                try:
+                    return (parts[0], int(parts[1]), int(parts[2]))
+                except (ValueError, IndexError):
+                    return (x, 0, 0)
+            self._ords[key] = sorted(set(sps), key=pos)
+        lst = self._ords[key]
+        if len(lst) <= 1 or sp not in lst:
+            return 0
+        return lst.index(sp) + 1
 
     def variant_of(self, node):
         """the enum variant a constant expression denotes: a unit variant path, `&Variant`, or a local known to hold one"""
@@ -571,6 +595,7 @@ class Builder:
             self.build(S[2], m2, m3, fn_end, fname)
             a.add_eps(m3, m1)
         elif k == "lit":
+            self.last_lit = " ".join(S[1].split())
             toks = lex(S[1])
             self.tokens(toks, s, e, {"fn": fname, "lit": S[1]})
         elif k == "hole":
@@ -610,7 +635,7 @@ class Builder:
             cal = S[1]
             short = cal.rsplit("::", 1)[-1]
             if short in NONTERMINALS and not (short == self.entry_name and not self.stack[1:]):
-                a.add(s, NONTERMINALS[short], e, {"fn": fname, "call": cal, "sp": S[3]})
+                a.add(s, NONTERMINALS[short], e, {"fn": fname, "call": cal, "sp": S[3], "ord": self.ordinal(fname, cal, S[3]), "ctx": self.last_lit})
                 return
             nd = S[2].get("node") or {}
             fe = H.peel_ref(nd.get("fn_expr")) if isinstance(nd.get("fn_expr"), dict) else None
@@ -769,7 +794,7 @@ def prov_key(prov):
     elif prov.get("hole"):
         what = "<%s:%s>" % (prov["hole"], prov.get("what") or "")
     elif prov.get("call"):
-        what = "call:" + prov["call"].rsplit("::", 1)[-1]
+        what = "call:" + prov["call"].rsplit("::", 1)[-1] + ((":after:'%s'" % prov["ctx"]) if prov.get("ord") and prov.get("ctx") else ("#%d" % prov["ord"] if prov.get("ord") else ""))
     else:
         what = "buf"
     return (fn + ":" + what).replace(" ", "_")
